@@ -16,13 +16,15 @@
 (* produce; Assigned(keys, fields, cfg) the set of fields unmarshaling     *)
 (* must fill from a document with those keys.                              *)
 (***************************************************************************)
-EXTENDS Integers, Sequences, FiniteSets
+EXTENDS Integers, Sequences, FiniteSets, TLC
 
 Names == << [go |-> "FieldOne",  snake |-> "field_one",  ident |-> "fieldone"],
             [go |-> "Second",    snake |-> "second",     ident |-> "second"],
             [go |-> "HTTPCode",  snake |-> "http_code",  ident |-> "httpcode"],
             [go |-> "InnerA",    snake |-> "inner_a",    ident |-> "innera"],
             [go |-> "InnerB2",   snake |-> "inner_b2",   ident |-> "innerb2"] >>
+         \o [i \in 1..14 |-> LET d == IF i < 10 THEN "0" \o ToString(i) ELSE ToString(i) IN
+                               [go |-> "W" \o d, snake |-> "w" \o d, ident |-> "w" \o d]]
 Renamed == [go |-> "ReNamed", snake |-> "re_named", ident |-> "renamed"]
 
 Tags == {"none", "omit", "omit_empty", "omit_zero", "omit_never", "name", "first", "o0", "o1"}
